@@ -110,9 +110,9 @@ impl From<&Hsla> for Hwba {
 #[cfg_attr(kani, kani::requires(kani_verif::mml_pre(a, b, c)))]
 #[cfg_attr(kani, kani::ensures(|r| kani_verif::mml_post(a, b, c, r)))]
 fn max_min_largest(a: f64, b: f64, c: f64) -> (f64, f64, u32) {
-    let (max, largest) = if a > b && a > c {
+    let (max, largest) = if a >= b && a >= c {
         (a, 0)
-    } else if b > a && b > c {
+    } else if b >= c {
         (b, 1)
     } else {
         (c, 2)
